@@ -81,6 +81,9 @@ Proof.
 Qed.
 
 (* ---------------------------------------------------------------- default_image_sizing *)
+Lemma Some_neq_None {A} (x : A) : Some x <> None.
+Proof. discriminate. Qed.
+
 (* a specified size: a number, or None / the keyword 'auto' (both are "not specified") *)
 Definition vspec (x : oq) (auto : bool) : val :=
   match x with Some q => VNum q | None => if auto then VStr "auto" else VNone end.
@@ -119,18 +122,18 @@ Proof.
       lazy -[Py.qadd Py.qsub Py.qmul Py.qdiv Py.qeqb Py.qleb Py.ocall Qmult Qdiv Qeq_bool C13Replaced.qdiv];
       finish HO.
   - destruct iw0 as [w|], ih0 as [h|].
-    + pose proof (HS (Intr (Some w) (Some h) ir0) dw dh (or_introl (fun X => ltac:(discriminate X)))) as E.
+    + pose proof (HS (Intr (Some w) (Some h) ir0) dw dh (or_introl (Some_neq_None _))) as E.
       cbn [iw ih ir voq] in E.
       destruct ir0 as [r|], aw, ah;
         lazy -[Py.qadd Py.qsub Py.qmul Py.qdiv Py.qeqb Py.qleb Py.ocall Qmult Qdiv Qeq_bool C13Replaced.qdiv dis_step];
         cbn [voq] in E; rewrite E; cbn; reflexivity.
-    + pose proof (HS (Intr (Some w) None ir0) dw dh (or_introl (fun X => ltac:(discriminate X)))) as E.
+    + pose proof (HS (Intr (Some w) None ir0) dw dh (or_introl (Some_neq_None _))) as E.
       cbn [iw ih ir voq] in E.
       destruct ir0 as [r|], aw, ah;
         lazy -[Py.qadd Py.qsub Py.qmul Py.qdiv Py.qeqb Py.qleb Py.ocall Qmult Qdiv Qeq_bool C13Replaced.qdiv dis_step];
         cbn [voq] in E; rewrite E; cbn [dis_step iw ih ir C13Replaced.bind];
         try (destruct (C13Replaced.qdiv w r)); cbn; auto.
-    + pose proof (HS (Intr None (Some h) ir0) dw dh (or_intror (fun X => ltac:(discriminate X)))) as E.
+    + pose proof (HS (Intr None (Some h) ir0) dw dh (or_intror (Some_neq_None _))) as E.
       cbn [iw ih ir voq] in E.
       destruct ir0 as [r|], aw, ah;
         lazy -[Py.qadd Py.qsub Py.qmul Py.qdiv Py.qeqb Py.qleb Py.ocall Qmult Qdiv Qeq_bool C13Replaced.qdiv dis_step];
@@ -142,3 +145,97 @@ Proof.
         match goal with |- context [contain_sizing ?a ?b ?c] => destruct (contain_sizing a b c) as [p|] end;
         cbn; auto.
 Qed.
+
+(* ---------------------------------------------------------------- linking: the calls are the regenerated bodies *)
+Definition T : table := GenReplaced_table.
+
+Lemma find_constraint : find_fn "_constraint_image_sizing" T = Some (constraint_image_sizing_args, constraint_image_sizing_body).
+Proof. reflexivity. Qed.
+Lemma find_contain : find_fn "contain_constraint_image_sizing" T =
+  Some (contain_constraint_image_sizing_args, contain_constraint_image_sizing_body).
+Proof. reflexivity. Qed.
+Lemma find_cover : find_fn "cover_constraint_image_sizing" T =
+  Some (cover_constraint_image_sizing_args, cover_constraint_image_sizing_body).
+Proof. reflexivity. Qed.
+Lemma find_default : find_fn "default_image_sizing" T = Some (default_image_sizing_args, default_image_sizing_body).
+Proof. reflexivity. Qed.
+
+Lemma linked_constraint n : calls_constraint (linked T (S n)).
+Proof.
+  intros cw ch r cover. rewrite ocall_linked, find_constraint.
+  apply (call_value (linked T n) (constraint_image_sizing_args, constraint_image_sizing_body) _
+           [("constraint_width", VNum cw); ("constraint_height", VNum ch); ("intrinsic_ratio", voq r); ("cover", VBool cover)]);
+    [reflexivity|]. apply gen_constraint, linked_ok.
+Qed.
+
+Lemma linked_contain n : calls_contain (linked T (S (S n))).
+Proof.
+  intros cw ch r. rewrite ocall_linked, find_contain.
+  apply (call_value (linked T (S n)) (contain_constraint_image_sizing_args, contain_constraint_image_sizing_body) _
+           [("constraint_width", VNum cw); ("constraint_height", VNum ch); ("intrinsic_ratio", voq r)]);
+    [reflexivity|]. apply gen_contain, linked_constraint.
+Qed.
+
+Lemma linked_cover n cw ch r :
+  ocall (linked T (S (S n))) "cover_constraint_image_sizing" [VNum cw; VNum ch; voq r] = vres (cover_sizing cw ch r).
+Proof.
+  rewrite ocall_linked, find_cover.
+  apply (call_value (linked T (S n)) (cover_constraint_image_sizing_args, cover_constraint_image_sizing_body) _
+           [("constraint_width", VNum cw); ("constraint_height", VNum ch); ("intrinsic_ratio", voq r)]);
+    [reflexivity|]. apply gen_cover, linked_constraint.
+Qed.
+
+(* the recursive call never recurses again: with specified := intrinsic and one of them known, the body returns
+   from one of its first three branches, whatever the calls would answer *)
+Lemma gen_default_inner O (HO : ops_ok O) i dw dh :
+  (iw i <> None \/ ih i <> None) ->
+  run O default_image_sizing_body (dis_env i (voq (iw i)) (voq (ih i)) dw dh)
+    (post (dis_step i (iw i) (ih i) dw dh None)) (perr (dis_step i (iw i) (ih i) dw dh None)).
+Proof.
+  destruct i as [iw0 ih0 ir0]. cbn [iw ih ir]. intros H.
+  unfold run, default_image_sizing_body, dis_step, dis_env, post, perr.
+  destruct iw0 as [w|], ih0 as [h|]; [| | |destruct H as [H|H]; congruence];
+    destruct ir0 as [r|];
+    lazy -[Py.qadd Py.qsub Py.qmul Py.qdiv Py.qeqb Py.qleb Py.ocall Qmult Qdiv Qeq_bool C13Replaced.qdiv];
+    finish HO.
+Qed.
+
+Lemma linked_self n : calls_self (linked T (S n)).
+Proof.
+  intros i dw dh H. rewrite ocall_linked, find_default.
+  apply (call_value (linked T n) (default_image_sizing_args, default_image_sizing_body) _
+           (dis_env i (voq (iw i)) (voq (ih i)) dw dh)); [reflexivity|].
+  apply gen_default_inner; [apply linked_ok|exact H].
+Qed.
+
+(* default_image_sizing of the source, with its calls answered by the source's own functions (depth 3 is enough:
+   default -> default | contain -> _constraint), IS the model, for every input *)
+Theorem gen_default_image_sizing n i sw sh (aw ah : bool) dw dh :
+  run (linked T (S (S n))) default_image_sizing_body (dis_env i (vspec sw aw) (vspec sh ah) dw dh)
+    (post (default_sizing i sw sh dw dh)) (perr (default_sizing i sw sh dw dh)).
+Proof. apply gen_default; [apply linked_ok|apply linked_contain|apply linked_self]. Qed.
+
+Theorem gen_default_image_sizing_value n i sw sh (aw ah : bool) dw dh :
+  link T (S (S (S n))) "default_image_sizing"
+    [voq (iw i); voq (ih i); voq (ir i); vspec sw aw; vspec sh ah; VNum dw; VNum dh]
+  = vres (default_sizing i sw sh dw dh).
+Proof.
+  change (link T (S (S (S n)))) with (ocall (linked T (S (S (S n))))).
+  rewrite ocall_linked, find_default.
+  apply (call_value (linked T (S (S n))) (default_image_sizing_args, default_image_sizing_body) _
+           (dis_env i (vspec sw aw) (vspec sh ah) dw dh)); [reflexivity|].
+  apply gen_default_image_sizing.
+Qed.
+
+Theorem gen_contain_value n cw ch r :
+  link T (S (S n)) "contain_constraint_image_sizing" [VNum cw; VNum ch; voq r] = vres (contain_sizing cw ch r).
+Proof. exact (linked_contain n cw ch r). Qed.
+Theorem gen_cover_value n cw ch r :
+  link T (S (S n)) "cover_constraint_image_sizing" [VNum cw; VNum ch; voq r] = vres (cover_sizing cw ch r).
+Proof. exact (linked_cover n cw ch r). Qed.
+
+(* the model evaluated through the linked source, on a concrete case: 100 x auto with ratio 2 *)
+Example gen_default_example :
+  link T 3 "default_image_sizing" [VNone; VNone; VNum 2; VNum 100; VStr "auto"; VNum 300; VNum 150]
+  = VList [VNum 100; VNum (100 / 2)].
+Proof. exact (gen_default_image_sizing_value 0 (Intr None None (Some 2)) (Some 100) None false true 300 150). Qed.
